@@ -49,7 +49,7 @@ class CondDesign(Elaboratable):
             with condition(m, nonblocking=block["nb"], priority=block["prio"]) as branch:
                 for b in block["br"]:
                     if b["c"]:
-                        c = Signal(name=f"c{len(self.conds)}")
+                        c = Signal(cfg.get("cw", 1), name=f"c{len(self.conds)}")
                         self.conds.append(c)
                         b["_c"] = len(self.conds) - 1
                         ctx = branch(c)
@@ -147,7 +147,9 @@ class CondH(MethodHarness):
 
     def alphabet(self, ref):
         if not hasattr(self, "_alpha"):
-            self._alpha = [tuple(v) for v in itertools.product((0, 1), repeat=self.n_inputs)]
+            # conditions may be multi-bit values (cfg "cw"): "holds" = non-zero, as for Amaranth's If
+            doms = [range(1 << self.cfg.get("cw", 1)) if n[0] == "c" and n[1:].isdigit() else (0, 1) for n in self.input_names]
+            self._alpha = [tuple(v) for v in itertools.product(*doms)]
         return self._alpha
 
     def step(self, ref, inp, obs):
@@ -281,12 +283,16 @@ def jobs(tier):
             js.append(E1("checks.c12", "CondH", {"encl": "m1d", "block": blk}, replay_cap=2))
         for blk in blocks(2, [1, 2]):
             js.append(E1("checks.c12", "CondH", {"encl": "t", "block": blk, "val": True}, replay_cap=2))
+        for blk in blocks(2, [0, 1]):
+            js.append(E1("checks.c12", "CondH", {"encl": "t", "block": blk, "cw": 2}, replay_cap=2))
     else:
         for encl in ("t", "m1", "m2", "m1c", "m2c", "m1d"):
             for blk in blocks(3, [0, 1, 2, 3], nested=True):
                 js.append(E1("checks.c12", "CondH", {"encl": encl, "block": blk}, replay_cap=2))
             for blk in blocks(2, [1, 2, 3]):
                 js.append(E1("checks.c12", "CondH", {"encl": encl, "block": blk, "val": True}, replay_cap=2))
+            for blk in blocks(2, [0, 1, 2]):
+                js.append(E1("checks.c12", "CondH", {"encl": encl, "block": blk, "cw": 2}, replay_cap=2))
     return js
 
 
